@@ -16,6 +16,7 @@ import (
 	"github.com/jf-tech/omniparser/transformctx"
 
 	"verif/mc/core"
+	"verif/mc/gen"
 	"verif/mc/hx"
 	"verif/mc/ref"
 )
@@ -39,9 +40,11 @@ var c02Records = []string{
 	`<r><a> 1.5 </a><c>true</c><d><a>7</a></d></r>`,
 	`<r/>`,
 	`<r><a><a>1</a><a>2</a></a><c>a</c></r>`,
+	`<r k=" "><a>  </a><c> </c><d><a>	</a></d></r>`, // values of nothing but white space
 	`json:{"r":{"a":{"a":"x","k":1},"c":1,"d":{"a":[7,8]}}}`,
 	`json:{"r":{"a":[1,2.5,{"a":" z "}],"c":" p ","k":null,"b":[]}}`,
 	`json:{"r":{"a":"1.5","c":true}}`,
+	`json:{"r":{"a":"  ","c":" ","d":{"a":["\t",""]}}}`,
 	`plain:a=1.5;c=7;d/a=x`,
 }
 
@@ -113,7 +116,9 @@ var c02RefFuncs = map[string]ref.RefFunc{
 	}},
 }
 
-func c02Schema(decls gd, finalXPath bool) []byte {
+func c02Schema(decls gd, finalXPath bool) []byte { return c02SchemaAt(decls, finalXPath, "/r") }
+
+func c02SchemaAt(decls gd, finalXPath bool, target string) []byte {
 	d := decls
 	if finalXPath {
 		d = gd{}
@@ -124,7 +129,7 @@ func c02Schema(decls gd, finalXPath bool) []byte {
 		for k, v := range decls["FINAL_OUTPUT"].(gd) {
 			fo[k] = v
 		}
-		fo["xpath"] = "/r"
+		fo["xpath"] = target
 		d["FINAL_OUTPUT"] = fo
 	}
 	b, _ := json.Marshal(gd{"parser_settings": gd{"version": "omni.2.1", "file_format_type": "xml"}, "transform_declarations": d})
@@ -724,8 +729,12 @@ func init() {
 						schema = nil
 					}
 				}
+				var xmlRecs, xmlOutcomes []string
 				for ri, rec := range recs {
 					sig, detail, outcome := c02Check(decls, c02Records[ri], rec, im)
+					if sig == "" && strings.HasPrefix(c02Records[ri], "<") {
+						xmlRecs, xmlOutcomes = append(xmlRecs, c02Records[ri]), append(xmlOutcomes, outcome)
+					}
 					c.Eval(label + "|" + outcome)
 					cs := c02Case{Decls: decls, Record: c02Records[ri]}
 					switch {
@@ -753,6 +762,36 @@ func init() {
 							c.Count("full_path_cases", 1)
 							if !bytes.Equal([]byte(got), []byte(outcome)) {
 								c.Violation("full-path-differs-from-parse-node:"+label, fmt.Sprintf("Transform.Read gave %s, ParseNode/reference gave %s\n%s", got, outcome, c02Schema(decls, true)), cs, nil)
+							}
+						}
+					}
+				}
+				// (the wrapper element gives the records one more ancestor than they have alone, so declaration
+				// sets that climb twice - ".." under ".." - are left to the single-record path)
+				if full && len(xmlRecs) > 1 && strings.Count(gen.Marshal(decls), `".."`) <= 1 {
+					// all records as ONE stream under a common parent, twice over (so that every record also
+					// follows every other one): each result must be the record's own
+					stream, serr, _ := hx.NewSchema("s", string(c02SchemaAt(decls, true, "/S/r")), ext)
+					if serr == nil {
+						doc := "<S>" + strings.Join(xmlRecs, "") + strings.Join(xmlRecs, "") + "</S>"
+						want := append(append([]string{}, xmlOutcomes...), xmlOutcomes...)
+						r := hx.Run(stream, strings.NewReader(doc), hx.Opts{Externals: c02Externals, NoChecksum: true, MaxReads: 3 * len(want)})
+						c.Count("stream_path_cases", 1)
+						for i := range want {
+							got := "?"
+							if i < len(r.Steps) {
+								switch r.Steps[i].Kind {
+								case "rec":
+									got = r.Steps[i].Out
+								case "fail":
+									got = "FAIL"
+								default:
+									got = r.Steps[i].String()
+								}
+							}
+							if got != want[i] {
+								c.Violation("stream-path-differs-from-record-alone:"+label, fmt.Sprintf("record %d of the stream %s\nTransform.Read gave %s, the record alone gives %s\n%s", i, doc, got, want[i], c02SchemaAt(decls, true, "/S/r")), c02Case{Decls: decls, Record: xmlRecs[i%len(xmlRecs)]}, nil)
+								break
 							}
 						}
 					}
